@@ -10,11 +10,12 @@ The scratch worktree is removed afterwards."""
 import json, os, re, shutil, subprocess, sys, tempfile, time
 args = sys.argv[1:]
 prop, src, sid = args[0], args[1], args[2]
-demo_dir, needs = None, ""
+demo_dir, needs, demo_tags = None, "", []
 i = 3
 while i < len(args):
     if args[i] == "--demo-dir": demo_dir = args[i + 1]; i += 2
     elif args[i] == "--needs": needs = args[i + 1]; i += 2
+    elif args[i] == "--demo-tags": demo_tags = ["-tags", args[i + 1]]; i += 2
     else: i += 1
 env = dict(os.environ, GOFLAGS="-mod=mod", GOPROXY="off", GOSUMDB="off", GOTOOLCHAIN="local")
 patch = os.path.join(src, "patch.diff")
@@ -30,7 +31,7 @@ log = []
 def run(cmd, cwd=wt, timeout=900):
     t0 = time.time()
     try:
-        r = subprocess.run(cmd, cwd=cwd, env=env, stdout=subprocess.PIPE, stderr=subprocess.STDOUT, text=True, timeout=timeout)
+        r = subprocess.run(cmd, cwd=cwd, env=env, stdout=subprocess.PIPE, stderr=subprocess.STDOUT, text=True, errors="replace", timeout=timeout)
         rc, out = r.returncode, r.stdout
     except subprocess.TimeoutExpired as e:
         rc, out = 124, (e.stdout or "") if isinstance(e.stdout, str) else "timeout"
@@ -45,7 +46,7 @@ try:
         for tags in ([], ["-tags", "verif"]):
             rc, out = run(["go", "build"] + tags + ["./..."])
             if rc != 0: ok, why = False, "does not build " + " ".join(tags)
-    touched = subprocess.run(["git", "-C", wt, "diff", "--name-only"], stdout=subprocess.PIPE, text=True).stdout.split()
+    touched = subprocess.run(["git", "-C", wt, "diff", "--name-only"], stdout=subprocess.PIPE, text=True, errors="replace").stdout.split()
     if ok and any(t.endswith("_test.go") for t in touched): ok, why = False, "patch edits tests"
     if ok:
         for k in range(2):
@@ -56,14 +57,14 @@ try:
         shutil.copy(demo, demo_dst)
         names = re.findall(r"^func (Test\w+)\(", open(demo).read(), re.M)
         pat = "^(" + "|".join(names) + ")$"
-        rc, out = run(["go", "test", "-vet=off", "-count=1", "-timeout", "300s", "-run", pat, "./" + demo_dir])
+        rc, out = run(["go", "test"] + demo_tags + ["-vet=off", "-count=1", "-timeout", "300s", "-run", pat, "./" + demo_dir])
         if rc == 0: ok, why = False, "demonstration passes on the patched tree"
     if ok:
         os.remove(demo_dst)
         run(["git", "checkout", "--", "."])
         shutil.copy(demo, demo_dst)
         for k in range(3):
-            rc, out = run(["go", "test", "-vet=off", "-count=1", "-timeout", "300s", "-run", pat, "./" + demo_dir])
+            rc, out = run(["go", "test"] + demo_tags + ["-vet=off", "-count=1", "-timeout", "300s", "-run", pat, "./" + demo_dir])
             if rc != 0: ok, why = False, "demonstration fails on the unpatched tree (run %d)" % (k + 1); break
 finally:
     subprocess.run(["git", "-C", "/repo", "worktree", "remove", "--force", wt])
@@ -81,7 +82,7 @@ if os.path.exists(os.path.join(src, "notes.md")):
     shutil.copy(os.path.join(src, "notes.md"), os.path.join(dst, "notes.md"))
 meta = dict(property=prop, id=sid, demo_placement=demo_dir + "/ (package %s)" % pkg, needs_to_manifest=needs,
             confirmed=dict(builds=True, suite_passes_twice=True, demo_fails_with_patch=True, demo_passes_without_patch_3x=True),
-            commands=[dict(cmd=l["cmd"], rc=l["rc"], secs=l["secs"]) for l in log], base_commit=subprocess.run(["git", "-C", "/repo", "rev-parse", "--short", "HEAD"], stdout=subprocess.PIPE, text=True).stdout.strip(),
+            commands=[dict(cmd=l["cmd"], rc=l["rc"], secs=l["secs"]) for l in log], base_commit=subprocess.run(["git", "-C", "/repo", "rev-parse", "--short", "HEAD"], stdout=subprocess.PIPE, text=True, errors="replace").stdout.strip(),
             origin="independent sub-agent given only the property text and a scratch worktree")
 json.dump(meta, open(os.path.join(dst, "meta.json"), "w"), indent=1)
 print("ACCEPTED ->", dst)
